@@ -25,3 +25,11 @@ ASSUMPTIONS = [
 PROPS = {}
 
 PROPS['T0'] = dict(functions=ARITH + [GH + 'split_table', GH + 'remove_redundant_attrs'])
+
+PROPS['C17'] = dict(functions=['py_stringsimjoin.profiler.profiler.profile_table_for_join',
+                              'py_stringsimjoin.utils.validation.validate_input_table',
+                              'py_stringsimjoin.utils.validation.validate_attr'],
+                    trusted=['pandas (assumed, pyvc/pandas_model.py): Series.unique, pd.isnull, sum of a boolean Series, '
+                             'DataFrame(rows, columns=), set_index, df[name]',
+                             'str() and str.join are uninterpreted injective-free symbols; the percentage inside the '
+                             'formatted statistic is the value the code computes (round(x, 2) in the float model)'])
